@@ -120,6 +120,16 @@ def _transpose(matrix):
     return np.transpose(matrix, axes=(0, 2, 1))
 
 
+def _error_if_too_few_tcoeffs(ode, /, *, num_tcoeffs: int):
+    # Integer-array indexing clamps out-of-range indices silently,
+    # so verify that the state carries the constrained coefficients.
+    if max(ode.tcoeff_indices_output) >= num_tcoeffs:
+        msg = "The state carries too few Taylor coefficients for this ODE."
+        msg += f" Expected: at least {max(ode.tcoeff_indices_output) + 1}."
+        msg += f" Received: {num_tcoeffs}."
+        raise IndexError(msg)
+
+
 class BlockDiagOdeTs0(ssm_impl_api.AbstractOde):
     """Block-diagonal ODE linearization via TS0 (zeroth-degree Taylor series: evaluate at the prior mean, no Jacobian)."""
 
@@ -128,6 +138,7 @@ class BlockDiagOdeTs0(ssm_impl_api.AbstractOde):
 
     def linearize(self, rv, state: None, *, damp: float, t):
         del state
+        _error_if_too_few_tcoeffs(self.ode, num_tcoeffs=len(rv.mean))
 
         fx = self.ode.vector_field(
             jet_coords=rv.mean[: self.ode.num_tcoeffs_in_args], t=t
